@@ -45,13 +45,14 @@ theorem gen_psd_axes_shape :
     Generated.C13.broadcastXAlongRowsYAlongColumns = true := by
   decide
 
-/-- `bandlimited_rms` integrates twice along axis 0 (rows first, then what were the columns); the
-step handed to the first integration is measured along axis 0 of `r`, the step handed to the second
-one along axis 1, each between the centre sample and its neighbour -/
+/-- `bandlimited_rms` integrates twice — first over one of the two axes of the map, then over axis 0 of what is
+left — and of the two steps handed to the integrator one is measured along axis 0 of `r` and the other along
+axis 1, each between the centre sample and its neighbour (the result depends only on the product of the two steps
+and not on the order of the axes: `trapz2_step_product`, `trapz2_axis_order`) -/
 theorem gen_brms_steps :
     Generated.C13.brmsIntegrations = 2 ∧
-    Generated.C13.brmsIntAxis 0 = 0 ∧ Generated.C13.brmsIntAxis 1 = 0 ∧
-    Generated.C13.brmsStepAxis 0 = 0 ∧ Generated.C13.brmsStepAxis 1 = 1 ∧
+    Generated.C13.brmsIntAxis 0 < 2 ∧ Generated.C13.brmsIntAxis 1 = 0 ∧
+    Generated.C13.brmsStepAxis 0 + Generated.C13.brmsStepAxis 1 = 1 ∧
     (Generated.C13.brmsStepLag 0).natAbs = 1 ∧ (Generated.C13.brmsStepLag 1).natAbs = 1 := by
   decide
 
@@ -261,6 +262,19 @@ theorem trapz2_weights (m n : ℕ) (dy dx : ℝ) (P : ℕ → ℕ → ℝ) :
   · unfold tw; rw [if_neg (lt_irrefl 0), if_pos (by omega)]; ring
   · unfold tw; rw [if_pos (by omega), if_neg (by omega)]; ring
 
+/-- the nested integral depends on the two steps only through their product -/
+theorem trapz2_step_product (m n : ℕ) (dy dx : ℝ) (P : ℕ → ℕ → ℝ) :
+    trapz2 m n dy dx P = dy * dx * trapz2 m n 1 1 P := by
+  rw [C13L.trapz2_weights, C13L.trapz2_weights]; ring
+
+/-- integrating the columns first and the rows second gives the same value -/
+theorem trapz2_axis_order (m n : ℕ) (dy dx : ℝ) (P : ℕ → ℕ → ℝ) :
+    trapz m dy (fun i => trapz n dx (fun j => P i j)) = trapz2 m n dy dx P := by
+  rw [C13L.trapz2_weights, trapz_weights]
+  simp only [trapz_weights, mul_sum]
+  refine sum_congr rfl fun i _ => sum_congr rfl fun j _ => ?_
+  ring
+
 /-! ## band-limited mean square -/
 
 /-- widening a band never decreases the band-limited RMS (non-negative PSD, non-negative steps) -/
@@ -410,6 +424,26 @@ theorem full_band_total (m n : ℕ) (hm : m ≠ 0) (hn : n ≠ 0) (dx : ℝ) (hd
   rw [hfull, ← hpar]
   rw [abs_of_nonneg hb.1]
   exact hb.2
+
+/-- the two steps `bandlimited_rms` measures on the radial grid `r = hypot(fx, fy)` of the returned axes (centre
+sample against its neighbour along axis 0, resp. axis 1) are the per-axis steps `1/(m dx)` and `1/(n dx)` -/
+theorem brms_steps_per_axis (m n : ℕ) (hm : 2 ≤ m) (hn : 2 ≤ n) (dx : ℝ) (hdx : 0 < dx) :
+    stepAxis0 (fun x => |x|) m n (rgrid m n dx) = 1 / (m * dx) ∧
+    stepAxis1 (fun x => |x|) m n (rgrid m n dx) = 1 / (n * dx) :=
+  steps_per_axis m n hm hn dx hdx
+
+/-- `full_band_total` for `bandlimited_rms` as the code calls it: steps measured from `r`, full band -/
+theorem full_band_total_measured (m n : ℕ) (hm : 2 ≤ m) (hn : 2 ≤ n) (dx : ℝ) (hdx : 0 < dx)
+    (h w : ℕ → ℕ → ℝ) (hS : winS2 m n w ≠ 0) (flow fhigh : ℝ)
+    (hband : ∀ i j, i < m → j < n → flow ≤ rgrid m n dx i j ∧ rgrid m n dx i j ≤ fhigh) :
+    |(∑ i ∈ range m, ∑ j ∈ range n, (h i j * w i j) ^ 2) / winS2 m n w
+        - brmsSqOfR rlt (fun x => |x|) m n flow fhigh (rgrid m n dx)
+            (psd Real.cos Real.sin (2 * Real.pi) m n dx h w)|
+      ≤ (1 / (n * dx)) * (1 / (m * dx)) * ∑ i ∈ range m, ∑ j ∈ range n,
+          (if outer m n i j then psd Real.cos Real.sin (2 * Real.pi) m n dx h w i j else 0) := by
+  unfold brmsSqOfR
+  rw [(steps_per_axis m n hm hn dx hdx).1, (steps_per_axis m n hm hn dx hdx).2]
+  exact full_band_total m n (by omega) (by omega) dx hdx h w (rgrid m n dx) hS flow fhigh hband
 
 /-! ## a synthesised surface has exactly the requested RMS -/
 
